@@ -14,6 +14,10 @@ MODULES = {
     "C03": "vlib.props.c03",
     "C04": "vlib.props.c04",
     "C05": "vlib.props.c05",
+    "C08": "vlib.props.c08",
+    "C09": "vlib.props.c09",
+    "C10": "vlib.props.c10",
+    "C17": "vlib.props.c17",
     "C06": "vlib.props.c06",
     "C07": "vlib.props.c07",
     "C14": "vlib.props.c14",
